@@ -15,14 +15,15 @@ import (
 )
 
 type trace struct {
-	Kind  string       `json:"kind"`
-	Expr  *Expr        `json:"expr"`
-	Depth int          `json:"depth"`
-	Cc    []call       `json:"cc"`
-	Steps []stepObs    `json:"steps"`
-	Fe    []forEachObs `json:"fe"`
-	SrcOK bool         `json:"srcok"`
-	Post  postObs      `json:"post"`
+	Kind   string       `json:"kind"`
+	Expr   *Expr        `json:"expr"`
+	Depth  int          `json:"depth"`
+	Cc     []call       `json:"cc"`
+	Steps  []stepObs    `json:"steps"`
+	Fe     []forEachObs `json:"fe"`
+	SrcOK  bool         `json:"srcok"`
+	Post   postObs      `json:"post"`
+	Repoll string       `json:"repoll"`
 	// not judged by TLC: reported by the orchestrator directly
 	Panic     string `json:"panic"`
 	Truncated bool   `json:"truncated"`
@@ -34,7 +35,7 @@ const stepLimit = 4000
 
 func execute(kind string, e *Expr, rng *rand.Rand) trace {
 	o := observe(kind, e, stepLimit)
-	t := trace{Kind: kind, Expr: e, Depth: depthOf(e), Cc: o.Cc, Steps: o.Steps, Fe: []forEachObs{}, SrcOK: o.SrcOK, Post: o.Post,
+	t := trace{Kind: kind, Expr: e, Depth: depthOf(e), Cc: o.Cc, Steps: o.Steps, Fe: []forEachObs{}, SrcOK: o.SrcOK, Post: o.Post, Repoll: o.Repoll,
 		Panic: o.Panic, Truncated: o.Truncated, PostPanic: o.PostPanic}
 	if o.Panic != "" || o.Truncated {
 		return t
@@ -59,12 +60,37 @@ func execute(kind string, e *Expr, rng *rand.Rand) trace {
 	return t
 }
 
+// bound is a syntactic upper bound of the length of any list met while evaluating e (the judge in TLC evaluates
+// the eager loops of the cursor model recursively: very long intermediate lists exhaust its stack).
+func bound(e *Expr) int {
+	if e == nil {
+		return 0
+	}
+	switch e.Op {
+	case "nil":
+		return 0
+	case "slice":
+		return len(e.Xs)
+	case "from", "pfrom":
+		return 1
+	case "plus":
+		return bound(e.L) + bound(e.R)
+	case "join", "toseq", "fromseq":
+		return 2 * bound(e.E) // no function of the tables returns more than two elements
+	case "joinx", "toseqx", "fromseqx":
+		return max(bound(e.E), bound(e.E)*max(bound(e.A), bound(e.B)))
+	}
+	return bound(e.E)
+}
+
+const maxBound = 120
+
 func depthOf(e *Expr) int {
 	if e == nil {
 		return 0
 	}
 	d := 0
-	for _, c := range []*Expr{e.E, e.L, e.R} {
+	for _, c := range []*Expr{e.E, e.L, e.R, e.A, e.B} {
 		if c != nil {
 			d = max(d, 1+depthOf(c))
 		}
@@ -136,6 +162,14 @@ func (g *gen) slice() *Expr {
 	return eSlice(xs...)
 }
 
+// inner is the other branch of an expression-valued function: nil half of the time, so that nil inners are mixed in.
+func (g *gen) inner(mk func(int) *Expr, d int) *Expr {
+	if g.rng.Intn(2) == 0 {
+		return eNil()
+	}
+	return mk(g.rng.Intn(d))
+}
+
 // seq generates a seq-kind expression of depth exactly d on at least one branch.
 func (g *gen) seq(d int) *Expr {
 	if d == 0 {
@@ -148,9 +182,9 @@ func (g *gen) seq(d int) *Expr {
 			return eNil()
 		}
 	}
-	ops := []string{"tw", "dw", "flt", "map", "plus", "plus", "plus", "join", "join"}
+	ops := []string{"tw", "dw", "flt", "map", "plus", "plus", "plus", "join", "join", "joinx", "joinx"}
 	if g.pairs {
-		ops = append(ops, "toseq", "toseq", "toseq")
+		ops = append(ops, "toseq", "toseq", "toseq", "toseqx")
 	}
 	switch op := ops[g.rng.Intn(len(ops))]; op {
 	case "tw", "dw", "flt":
@@ -161,6 +195,10 @@ func (g *gen) seq(d int) *Expr {
 		return &Expr{Op: op, J: pick(g.rng, nSeqJoins), E: g.seq(d - 1)}
 	case "toseq":
 		return &Expr{Op: op, J: pick(g.rng, nToSeq), E: g.pair(d - 1)}
+	case "joinx":
+		return &Expr{Op: op, P: pick(g.rng, nSeqPreds), E: g.seq(d - 1), A: g.seq(g.rng.Intn(d)), B: g.inner(g.seq, d)}
+	case "toseqx":
+		return &Expr{Op: op, P: pick(g.rng, nPairPreds), E: g.pair(d - 1), A: g.seq(g.rng.Intn(d)), B: g.inner(g.seq, d)}
 	default:
 		a, b := g.seq(d-1), g.seq(g.rng.Intn(d))
 		if g.rng.Intn(2) == 0 {
@@ -185,7 +223,7 @@ func (g *gen) pair(d int) *Expr {
 	if d == 1 && g.rng.Intn(2) == 0 {
 		return &Expr{Op: "fromseq", J: "kv", E: g.slice()} // the canonical key-value list (key = 10 + value)
 	}
-	ops := []string{"tw", "dw", "flt", "map", "plus", "plus", "plus", "join", "join", "fromseq", "fromseq"}
+	ops := []string{"tw", "dw", "flt", "map", "plus", "plus", "plus", "join", "join", "fromseq", "fromseq", "joinx", "fromseqx"}
 	switch op := ops[g.rng.Intn(len(ops))]; op {
 	case "tw", "dw", "flt":
 		return &Expr{Op: op, P: pick(g.rng, nPairPreds), E: g.pair(d - 1)}
@@ -195,6 +233,10 @@ func (g *gen) pair(d int) *Expr {
 		return &Expr{Op: op, J: pick(g.rng, nPairJoins), E: g.pair(d - 1)}
 	case "fromseq":
 		return &Expr{Op: op, J: pick(g.rng, nFromSeq), E: g.seq(d - 1)}
+	case "joinx":
+		return &Expr{Op: op, P: pick(g.rng, nPairPreds), E: g.pair(d - 1), A: g.pair(g.rng.Intn(d)), B: g.inner(g.pair, d)}
+	case "fromseqx":
+		return &Expr{Op: op, P: pick(g.rng, nSeqPreds), E: g.seq(d - 1), A: g.pair(g.rng.Intn(d)), B: g.inner(g.pair, d)}
 	default:
 		a, b := g.pair(d-1), g.pair(g.rng.Intn(d))
 		if g.rng.Intn(2) == 0 {
@@ -225,6 +267,10 @@ func TestRandom(t *testing.T) {
 		} else {
 			e = g.seq(d)
 		}
+		if bound(e) > maxBound {
+			i-- // draw another one
+			continue
+		}
 		guarded(out, k, e, rng)
 	}
 }
@@ -233,7 +279,7 @@ func TestRandom(t *testing.T) {
 // (hang = true) and ends the process.
 func guarded(out *vio.Out, kind string, e *Expr, rng *rand.Rand) {
 	withWatchdog(out, func() any {
-		return trace{Kind: kind, Expr: e, Depth: depthOf(e), Cc: []call{}, Steps: []stepObs{}, Fe: []forEachObs{}, Post: postObs{V: item{0}}, Hang: true}
+		return trace{Kind: kind, Expr: e, Depth: depthOf(e), Cc: []call{}, Steps: []stepObs{}, Fe: []forEachObs{}, Post: postObs{V: item{0}}, Repoll: "none", Hang: true}
 	}, func() { out.Put(execute(kind, e, rng)) })
 }
 
